@@ -176,3 +176,53 @@ func init() {
 	vHarnesses["H_C16_pass"] = H_C16_pass
 	vHarnesses["H_C16_quiesce"] = H_C16_quiesce
 }
+
+// H_C16_writers: a write acknowledged while a pass is running is never lost or reverted.
+// 100 filler rows make the pass release the table lock once before it reaches row "s".
+func H_C16_writers() {
+	s := vNewServer(vEngLeveldbMem, func() bigtable.Timestamp { return 5000 })
+	_, err := s.CreateTable(vCtx(), &btapb.CreateTableRequest{Parent: vParent, TableId: "t", Table: &btapb.Table{
+		ColumnFamilies: map[string]*btapb.ColumnFamily{"f": {GcRule: &btapb.GcRule{Rule: &btapb.GcRule_MaxNumVersions{MaxNumVersions: 1}}}}}})
+	if err != nil {
+		vFatal("CreateTable")
+	}
+	tbl := s.tables[vTable]
+	two := func(key string) *btpb.Row {
+		return &btpb.Row{Key: []byte(key), Families: []*btpb.Family{{Name: "f", Columns: []*btpb.Column{{Qualifier: []byte("q"),
+			Cells: []*btpb.Cell{{TimestampMicros: 2000, Value: []byte("new")}, {TimestampMicros: 1000, Value: []byte("old")}}}}}}}
+	}
+	for i := 0; i < 100; i++ {
+		tbl.rows.ReplaceOrInsert(two(string([]byte{'a', byte('0' + i/10), byte('0' + i%10)})))
+	}
+	tbl.rows.ReplaceOrInsert(two("s"))
+	target := []string{"s", "t", "a50"}[vChoice("writer.target", 0, 2)]
+	val := vNondetBytes("writer.val", 1)
+	acked := false
+	vGo(func() {
+		_, err := s.MutateRow(vCtx(), &btpb.MutateRowRequest{TableName: vTable, RowKey: []byte(target), Mutations: []*btpb.Mutation{
+			{Mutation: &btpb.Mutation_SetCell_{SetCell: &btpb.Mutation_SetCell{FamilyName: "f", ColumnQualifier: []byte("w"), TimestampMicros: 3000, Value: val}}}}})
+		acked = err == nil
+	})
+	vGo(func() { tbl.gc(5000, s.done, true) })
+	vJoin()
+	vAssert(acked, "write-acknowledged")
+	// the acknowledged cell f:w@3000 must be there (max-versions 1 keeps the newest cell of its column)
+	st := &vReadStream{}
+	rerr := s.ReadRows(&btpb.ReadRowsRequest{TableName: vTable, Rows: &btpb.RowSet{RowKeys: [][]byte{[]byte(target)}}}, st)
+	rows, ok := vDecode(st.msgs)
+	vAssert(rerr == nil && ok, "read-ok")
+	found := false
+	if len(rows) == 1 {
+		for _, c := range rows[0].cells {
+			if string(c.qual) == "w" && c.ts == 3000 {
+				found = vBytesEq(c.val, val)
+			}
+		}
+	}
+	vAssert(found, "acknowledged-write-survives-the-pass")
+	vReach("c16-writers")
+}
+
+func init() {
+	vHarnesses["H_C16_writers"] = H_C16_writers
+}
